@@ -72,7 +72,7 @@ fn bases(tier: Tier) -> Vec<Base> {
 fn n_sampled_chunks(tier: Tier) -> u64 {
     match tier {
         Tier::Quick => 4_000,
-        Tier::Thorough => 40_000,
+        Tier::Thorough => 120_000,
     }
 }
 
